@@ -356,7 +356,8 @@ func (g *flowGen) body(depth int) []*hast.Stmt {
 			st := &hast.Stmt{K: hast.SIf, ID: g.id()}
 			st.Clauses = append(st.Clauses, &hast.Clause{Cond: g.cond(true), Body: g.body(depth + 1)})
 			for k := r.PickW(55, 30, 15); k > 0; k-- {
-				st.Clauses = append(st.Clauses, &hast.Clause{Cond: g.cond(false), Body: g.body(depth + 1)})
+				// elseif conditions carry logged probes too: a clause after the one that is taken must not be evaluated
+				st.Clauses = append(st.Clauses, &hast.Clause{Cond: g.cond(true), Body: g.body(depth + 1)})
 			}
 			if r.Chance(1, 2) {
 				st.Clauses = append(st.Clauses, &hast.Clause{Body: g.body(depth + 1)})
